@@ -3,6 +3,7 @@ import struct
 import threading
 import time
 
+from vf import common
 from vf.harness import c13
 from vf.sched import explore, runtime
 
@@ -158,6 +159,7 @@ def check(kind):
 
 
 def run_into(rep, tier):
+  explore.set_plan(common.thorough_budget(tier), 4)
   for kind in ('writers', 'writers_timeout', 'readers', 'readers_timeout'):
     bound = 2 if tier == 'quick' else 4
     r = explore.explore('C13:' + kind, lambda ch, kind=kind: execute(kind, ch), check(kind), bound, cap=400000)
